@@ -21,7 +21,7 @@ RULE = (
     "2..4: vmap vs un-batched call and replacement/permutation of the other entries; per-entry smse loss. Non-trivial: >=2 leading "
     "axes or >=2 types (per-image) / batch >=2 (models); distinct by configuration."
 )
-RULE += " Also: slice components, get_one, patch 3, magnitudes 1e15 / 1 / 1e-5 in one block judged per entry, timestep loss for all three reductions against per-sample losses."
+RULE += " Evaluation entry points (map_plus_loss_in_batches, map_loss_in_batches) with a model that couples batch entries in training mode only. Also: slice components, get_one, patch 3, magnitudes 1e15 / 1 / 1e-5 in one block judged per entry, timestep loss for all three reductions against per-sample losses."
 ASSUMPTIONS = ["reference action / NumPy norm / block mean", "vmap vs single tolerance 1e-5 of the output scale; replacement of other entries 1e-6"]
 ANCHORS = [
     "ginjax.geometric.multi_image:MultiImage.times_group_element", "ginjax.geometric.multi_image:MultiImage.norm", "ginjax.geometric.multi_image:MultiImage.average_pool",
@@ -38,6 +38,7 @@ def cases(tier, seed):
     n_img, n_mod = (150, 14) if tier == "quick" else (5000, 300)
     out = [{"kind": "image", "op": OPS[i % len(OPS)]} for i in range(n_img)]
     out += [{"kind": "model", "equivariant": bool(i % 2)} for i in range(n_mod)]
+    out += [{"kind": "evalmode"} for i in range(4 if tier == "quick" else 40)]
     return out
 
 
@@ -60,7 +61,76 @@ def setup(ctx):
 
 
 def run(case, ctx):
+    if case["kind"] == "evalmode":
+        return run_evalmode(case, ctx)
     return run_image(case, ctx) if case["kind"] == "image" else run_model(case, ctx)
+
+
+def run_evalmode(case, ctx):
+    """The evaluation entry points (ml.map_plus_loss_in_batches, ml.map_loss_in_batches: get_batches -> evaluate -> pmap) with a
+    model whose layers couple the entries of a batch in training mode (what batch statistics do) and are per-sample in inference
+    mode: every prediction and loss must be the per-sample one, and must not move when the other samples are replaced."""
+    import equinox as eqx
+    import jax
+    import jax.numpy as jnp
+    import ginjax.geometric as geom
+    import ginjax.ml as ml
+    import ginjax.models as models
+
+    rng = rng_for(ctx["seed"], ID, case["i"])
+    D = 2
+    L, B = [(4, 2), (6, 3), (4, 4), (5, 2)][case["i"] % 4]
+    types = [[(0, 0)], [(1, 0), (0, 0)], [(0, 1), (1, 1)]][int(rng.integers(3))]
+    sp = (2, 3)
+
+    class BatchCoupled(models.MultiImageModule):
+        w: jax.Array
+        inference: bool  # switched by eqx.nn.inference_mode, like the flag of BatchNorm / Dropout
+
+        def __call__(self, x, aux_data=None):
+            return x * self.w, aux_data
+
+    def map_and_loss(m, xb, yb, aux):
+        out = jax.vmap(lambda xi: m(xi)[0])(xb)
+        if not m.inference:  # training mode: statistics of the current batch enter every entry
+            out = geom.MultiImage({t: v - jnp.mean(v, axis=0, keepdims=True) for t, v in out.items()}, out.D, out.is_torus)
+        per = ml.smse_loss(out, yb, None)
+        return jnp.mean(per), aux, out
+
+    def build(vals):
+        return geom.MultiImage({t: jnp.asarray(vals[t]) for t in types}, D, True)
+
+    xv = {t: rng.normal(size=(L, 2) + sp + (D,) * t[0]).astype(np.float32) + 3.0 for t in types}
+    yv = {t: rng.normal(size=(L, 2) + sp + (D,) * t[0]).astype(np.float32) for t in types}
+    xv2 = {t: np.concatenate([v[:1], rng.normal(size=v[1:].shape).astype(np.float32) - 5.0]) for t, v in xv.items()}  # others replaced
+    yv2 = {t: np.concatenate([v[:1], rng.normal(size=v[1:].shape).astype(np.float32)]) for t, v in yv.items()}
+    model = BatchCoupled(jnp.asarray(1.5), False)  # as it comes out of training
+    key = {"kind": "evalmode", "L": L, "B": B, "types": types}
+    viols, evals = [], 0
+    try:
+        loss, out = ml.map_plus_loss_in_batches(map_and_loss, model, build(xv), build(yv), B, None, None, None)
+        loss2, out2 = ml.map_plus_loss_in_batches(map_and_loss, model, build(xv2), build(yv2), B, None, None, None)
+        loss_only = ml.map_loss_in_batches(lambda m, a, b, c: map_and_loss(m, a, b, c)[:2], model, build(xv), build(yv), B, None, None, None)
+        evals += 3
+        n = (L // B) * B
+        for t in types:
+            want = (xv[t][:n].astype(np.float64) * 1.5)
+            got = np.asarray(out[t])
+            if got.shape != want.shape or np.max(np.abs(got - want)) > 1e-5 * np.max(np.abs(want)):
+                viols.append(viol("evaluation-couples-batch-entries", f"map_plus_loss_in_batches: the mapped block {t} is not the per-sample prediction (the model was run in training mode: batch statistics couple the samples); {key}"))
+                break
+            if not np.array_equal(np.asarray(out2[t])[0], got[0]):
+                viols.append(viol("evaluation-couples-batch-entries", f"map_plus_loss_in_batches: the prediction for sample 0 moved when the other samples of its batch were replaced; {key}"))
+                break
+        per = np.mean([sum(np.mean(np.sum((xv[t][i].astype(np.float64) * 1.5 - yv[t][i]) ** 2, axis=tuple(range(1 + D, 1 + D + t[0]))).sum(0)) for t in types) for i in range(n)])
+        for nm, l_ in (("map_plus_loss_in_batches", loss), ("map_loss_in_batches", loss_only)):
+            if abs(float(l_) - per) > 1e-4 * max(1.0, abs(per)):
+                viols.append(viol("evaluation-couples-batch-entries", f"{nm} returned {float(l_):.6g}, the mean of the per-sample losses is {per:.6g} (evaluation must run the model in inference mode); {key}"))
+    except Exception as e:
+        import traceback
+
+        viols.append(viol(f"evaluation-exception-{type(e).__name__}", f"{type(e).__name__}: {str(e)[:300]}; {key}; {traceback.format_exc()[-400:]}"))
+    return result(key, viols, True, evals=evals, obs={"evaluation_entry_point_calls": evals}, hist={"kind": "evalmode"}, sample={"key": key})
 
 
 def run_image(case, ctx):
